@@ -522,20 +522,28 @@ theorem floatF_name (req : List (String × PSet.FloatEntry V)) (p p' : Param V)
   cases hd : dget req p.name with
   | none => rw [hd] at h; cases h
   | some e =>
-    obtain ⟨ini, lo, hi⟩ := e
     rw [hd] at h
     simp only at h
     by_cases hf : (!p.isfixed) = true
     · rw [if_pos hf] at h; cases h
     · rw [if_neg hf] at h
-      unfold Param.makeFloating at h
-      cases hs : p.floatingSettings ini lo hi with
-      | error e => rw [hs] at h; cases h
-      | ok t =>
-        rw [hs] at h
-        cases h
-        have := applyFloating_props p t (floatingSettings_ok hs)
-        exact ⟨this.1, this.2.1⟩
+      cases e with
+      | short => cases h
+      | entry ini lo hi =>
+        simp only at h
+        split at h
+        · cases h
+        · split at h
+          · rename_i i l hh _ _ _
+            unfold Param.makeFloating at h
+            cases hs : p.floatingSettings i l hh with
+            | error e => rw [hs] at h; cases h
+            | ok t =>
+              rw [hs] at h
+              cases h
+              have := applyFloating_props p t (floatingSettings_ok hs)
+              exact ⟨this.1, this.2.1⟩
+          · cases h
 
 /-! ### value setter, union -/
 
